@@ -553,6 +553,10 @@ def lib_lines(rnd, tier):
     for st in strs:
         L.append("lib append s%s" % hx(st))
         L.append("lib copy s%s u7" % hx(st))
+    for st in strs:
+        L.append("lib marshal s%s u7" % hx(st))
+        L.append("lib demarshal s%s" % hx(st))
+    L += ["lib marshal u1", "lib marshal a%s:%s" % (hx("x"), hx("yy")), "lib demarshal u1 t5 y2", "lib demarshal a%s:%s u1" % (hx("x"), hx("y"))]
     L += ["lib append u5", "lib append y1 t99", "lib append s%s u5 t99 y3 s%s" % (hx("hello"), hx("w")), "lib append a%s:%s:%s" % (hx("x"), hx("yy"), hx("zzz")),
           "lib append a%s" % hx("only"), "lib copy a%s:%s u1" % (hx("x"), hx("y")), "lib copy u1"]
     vals = {"destination": ["a.b", "v.Dest", "a." + "b" * 200, ":1.7"], "sender": [":1.5", "org.freedesktop.DBus"], "member": ["X", "Member", "M" * 100],
@@ -572,7 +576,7 @@ def lib_lines(rnd, tier):
             L.append("lib append " + " ".join(rnd.choice(("s" + hx(w), "u%d" % rnd.randrange(1 << 32), "y%d" % rnd.randrange(256), "t%d" % rnd.randrange(1 << 64),
                                                           "a" + ":".join(hx(w[:i + 1] or "q") for i in range(rnd.randint(1, 4))))) for _ in range(rnd.randint(1, 4))))
         elif k < 0.5:
-            L.append("lib copy s%s u%d" % (hx(w), rnd.randrange(1000)))
+            L.append("lib %s s%s u%d" % (rnd.choice(("copy", "marshal", "demarshal")), hx(w), rnd.randrange(1000)))
         elif k < 0.8:
             f = rnd.choice(("destination", "interface", "error_name", "sender"))
             L.append("lib set %s %s" % (f, hx("n." + (w or "m"))))
@@ -623,9 +627,11 @@ def run_lib(ctx, rnd, stats):
                 if "BAD" in v:
                     rep.violation("library operation misbehaves without any injected failure: `%s`: %s" % (line[:200], v[:200]), {"input": line, "result": r[:2000]})
                 continue
-            status, _, retry = v.partition(";retry=")
-            if v == ref or (status == "oom-unchanged" and retry == ref):
-                continue                                  # completed with the unfailed result, or failed cleanly and the retry gives the unfailed result
+            status, _, rest = v.partition(";retry=")
+            retry, _, probe = rest.partition(";probe=")
+            if v == ref or (status == "oom-unchanged" and retry == ref and probe in ("", "same")):
+                continue                                  # completed with the unfailed result, or failed cleanly, the retry gives the unfailed
+                                                          # result and the message is as usable as one that never saw the failure
             fid = None
             if "reported-failure-but-message-changed" in status:
                 # F14.2 is exactly the 7 reserved padding bytes left behind (and the retry repairs it); anything else a header edit leaves is new
@@ -634,8 +640,19 @@ def run_lib(ctx, rnd, stats):
                 rep.known(known[fid], {"case": line[:200], "points": n, "verdict": v[:120]})
                 out["known"][fid] = out["known"].get(fid, 0) + n
             else:
-                rep.violation("C14 (library leg) violated: `%s` with a failing allocation: %s (unfailed: %s)" % (line[:200], v[:200], ref[:80]),
+                what = ("after the failed operation (and its retry) the message is not as usable as one that never saw the failure - set_member/set_sender/append/marshal return codes and bytes: %s" % probe[5:]) if probe.startswith("DIFF") else \
+                       ("%s; retry %s" % (status[:120], "equals the unfailed result" if retry == ref else "differs: " + retry[:80]))
+                rep.violation("C14 (library leg) violated: `%s` with a failing allocation: %s (unfailed: %s)" % (line[:200], what, ref[:60]),
                               {"input": line, "result": r[:3000], "how": "echo '<input>' | build/oom_h"})
+    # dbus_message_marshal against Oom.DString.msg_marshal: same number of allocation points, every one of them fails cleanly
+    mm, _ = vlib.run_lines(info["model_oom"], ["msgmarshal 16 4"])
+    mfail = sum(int(x.split("*")[0]) for x in mm[0].split(" ## ") if "*f1|" in x) if mm and "allocs=" in mm[0] else None
+    for line, r in zip(lines, res):
+        if line.startswith("lib marshal ") and r != "!CRASH":
+            ifail = sum(int(x.split("*")[0]) for x in r.split(" ## ") if re.match(r"^\d+\*f1\|", x))
+            if mfail is None or ifail != mfail or "locked=1" in mm[0]:
+                rep.violation("dbus_message_marshal makes %s fallible allocations, Oom.DString.msg_marshal lists %s (model line: %s)" % (ifail, mfail, mm[0][:200] if mm else "?"),
+                              {"input": line, "result": r[:1000], "names": "Oom.DString.msg_marshal vs dbus_message_marshal"}, found_input=False)
     out["lib_distinct"] = len(distinct)
     return out
 
